@@ -109,6 +109,7 @@ type peer struct {
 	noFinish     bool  // do not send Finish for Returns to our questions
 	noDisembargo bool
 	manualFinish map[uint32]bool // our questions whose Finish the script sends itself
+	failedQ      map[uint32]bool // our questions the Conn answered with an exception
 	holdBoot     bool            // keep Bootstrap questions unanswered until releaseBootstrap
 	holdMethods  map[uint16]bool // keep calls of these methods unanswered until releaseMethod
 }
@@ -116,7 +117,7 @@ type peer struct {
 func newPeer(b *bench) *peer {
 	return &peer{b: b, lk: b.lk, notify: make(chan struct{}), exited: make(chan struct{}),
 		connQ: map[uint32]*connQuestion{}, myQ: map[uint32]string{}, exports: map[uint32]int{},
-		deferred: map[uint32][]uint32{}, holdMethods: map[uint16]bool{}, manualFinish: map[uint32]bool{},
+		deferred: map[uint32][]uint32{}, holdMethods: map[uint16]bool{}, manualFinish: map[uint32]bool{}, failedQ: map[uint32]bool{},
 		nextQ: 100, nextCap: 1}
 }
 
@@ -280,6 +281,7 @@ type peerView struct {
 	connQuestionsDone []uint32 // answered (and maybe finished) Conn questions
 	myOpen            []uint32 // our questions without a Return yet
 	myReturned        []uint32 // our questions with Return, Finish not yet sent
+	myFailed          []uint32 // subset of myReturned answered with an exception
 	myFinished        []uint32
 	exports           []uint32 // Conn exports we hold
 	hosted            []uint32 // caps we host that the Conn imported
@@ -304,6 +306,9 @@ func (p *peer) view() peerView {
 			v.myOpen = append(v.myOpen, id)
 		case "returned":
 			v.myReturned = append(v.myReturned, id)
+			if p.failedQ[id] {
+				v.myFailed = append(v.myFailed, id)
+			}
 		default:
 			v.myFinished = append(v.myFinished, id)
 		}
@@ -319,6 +324,7 @@ func (p *peer) view() peerView {
 	sortU32(v.myOpen)
 	sortU32(v.myReturned)
 	sortU32(v.myFinished)
+	sortU32(v.myFailed)
 	sortU32(v.exports)
 	return v
 }
@@ -393,6 +399,9 @@ func (p *peer) reactLocked(m wireMsg) [][][]byte {
 			}
 		}
 		if st, ok := p.myQ[m.id]; ok && st == "open" {
+			if m.retWhich == rpccp.Return_Which_exception {
+				p.failedQ[m.id] = true
+			}
 			p.myQ[m.id] = "returned"
 			if !p.noFinish && !p.manualFinish[m.id] {
 				p.myQ[m.id] = "finished"
@@ -531,6 +540,18 @@ func (p *peer) echoDisembargoes() {
 	for _, s := range out {
 		p.lk.PeerSendSegs(s)
 	}
+}
+
+// adoptQuestion registers a question id chosen by the hostile generator, so
+// that its Return is tracked and later items can pipeline on it (its Finish
+// is never sent automatically).
+func (p *peer) adoptQuestion(q uint32) {
+	p.mu.Lock()
+	if _, ok := p.myQ[q]; !ok {
+		p.myQ[q] = "open"
+		p.manualFinish[q] = true
+	}
+	p.mu.Unlock()
 }
 
 func (p *peer) lastQuestion() uint32 {
